@@ -211,7 +211,8 @@ func TestC15(t *testing.T) {
 	if h.Thorough() {
 		b = 2
 	}
-	churn := &w.Alpha{DelNodes: true, Taints: []string{"NoSchedule"}, AddNodes: []string{"n9"}, PodDev: []string{"restart:1"}}
+	// Templates: a second template change while the canary runs (the nodes selected for the first one are still valid)
+	churn := &w.Alpha{DelNodes: true, Taints: []string{"NoSchedule"}, AddNodes: []string{"n9"}, PodDev: []string{"restart:1"}, Templates: []string{"C"}}
 	scs := []scOpt{corpusS3([]string{"n1", "n2", "n3"}, "2", "auto", b, churn), corpusS3([]string{"n1", "n2"}, "50%", "auto", b, churn)}
 	if h.Thorough() {
 		scs = append(scs, corpusS3([]string{"n1", "n2", "n3"}, "50%", "auto", 1, churn))
